@@ -18,7 +18,16 @@ instance : FloatLike Float where
   ofInt := Float.ofInt
   ofBits b := Float.ofBits (UInt64.ofNat b)
   toRat x := ratOfBits x.toBits.toNat
-  ofRat r := Float.ofInt r.num / Float.ofNat r.den
+  ofRat r :=
+    -- numerators/denominators of float-contaminated Decimals have thousands of bits: drop the
+    -- low bits of both (keeping >= 900) before the conversion, which would otherwise overflow
+    let nb := r.num.natAbs.log2
+    let db := r.den.log2
+    let sh := (max nb db) - 900
+    let n := r.num.natAbs >>> sh
+    let d := r.den >>> sh
+    let q := Float.ofNat n / Float.ofNat d
+    if r.num < 0 then -q else q
   sqrt := Float.sqrt
   log := Float.log
   rpow := Float.pow
